@@ -28,7 +28,7 @@ EXTRA_RINGS = ["Modular<int8_t>", "Modular<uint8_t>", "Modular<int16_t>", "Modul
                "Modular<float,double>", "Modular<ruint<6>>", "ModularExtended<double>", "ModularExtended<float>"]
 THREAD_CLASSES = THREAD_CLASSES + EXTRA_RINGS
 MIXED = ("Mixed<values>", "MixedRotate<values>")
-EXTRA_V = ["RaceFreeDisjoint.v", "RaceFreeValues.v", "gen/RaceFreeGen.v", "RaceFreeProps.v"]      # the C18 engineer's part of coq/C16
+EXTRA_V = ["RaceFreeDisjoint.v", "RaceFreeValues.v", "RaceFreeAtomic.v", "gen/RaceFreeGen.v", "RaceFreeProps.v"]      # the C18 engineer's part of coq/C16
 TRANSIENT = re.compile(r"inconsistent assumptions|bad version number|End_of_file|Cannot find a physical path|not a valid|No such file|Cannot open|Compiled library")
 
 
@@ -41,7 +41,11 @@ def inconclusive(chk, what, detail=""):
 
 def values_model(chk):
     """regenerate coq/C16/gen/RaceFreeGen.v from the current source and turn the decision into verdict items"""
-    res, err, timed_out = cv.build()
+    try:
+        res, err, timed_out = cv.build()
+    except Exception:
+        import traceback
+        res, err, timed_out = None, "harness/c18_values.py raised:\n" + traceback.format_exc(), False
     if res is None:
         if timed_out:
             inconclusive(chk, "value-class footprint generator: clang did not finish in time", err)
@@ -72,6 +76,9 @@ def values_model(chk):
         "template_patterns_skipped": m.get("template_patterns_skipped"), "library_sources": m.get("library_sources"),
         "writers_of_statics_all_documented": sorted("[%s] %s -> %s" % (c, o["uid"], ",".join(cv.writes_of(o) + cv.random_of(o))) for o, c, _ in doc)[:90],
         "undocumented_writers": [o["uid"] for o in off],
+        "ignored_statics (I/O streams: not domain state)": sorted(cv.IGNORED),
+        "thread_unsafe_externals_treated_as_static_writes": sorted(cv.UNSAFE_EXTERNALS),
+        "domain_classes_of_c16_inst_included": m.get("domain_classes_included"),
         "statics_only_read_or_excluded (effect, number of operations)": reads,
         "translator": {k: m.get(k) for k in ("cached", "seconds", "clang_seconds", "ast_objects", "decls_indexed", "calls_resolved", "calls_unresolved")}}
     return res
@@ -152,6 +159,15 @@ def structural_c18(chk, descs):
                            {"class": name, "copy_effects": [list(e) for e in ce]}, "copy-construction from a shared object writes nothing shared",
                            "writes %s" % ",".join(sorted(set(e[1] for e in ce))),
                            "two threads copy-constructing from one shared object race on a non-atomic reference count (C18_shared_write_refuted)")
+    # shared heap parts whose counter is a std::atomic: the copy constructor's increment is no data race (C18_atomic_counter: no update is
+    # lost in any interleaving); a plain counter is reported above (shared-write)
+    atomic = {}
+    for d in descs:
+        rc = d.get("rc") or {}
+        if rc.get("counter"):
+            ty = {f["name"]: f.get("type", "") for f in d["members"]}.get(rc["counter"], "")
+            atomic[d["name"]] = {"counter": rc["counter"], "type": ty, "atomic": "atomic" in ty}
+    chk.cov["reference_counts"] = atomic
     rand = sorted(set("%s::%s" % (d["name"], m["name"]) for d in descs if d["name"] not in C16.NO_VERDICT
                       for m in d["methods"] if m["const"] and om.Mirror(d).randomized(m)))
     return n_meth, n_ok, rand
@@ -457,7 +473,7 @@ def main(tier, replay=None):
             inconclusive(chk, "coqc on the RaceFree* files of coq/C16 did not finish in time", res2["log"])
         else:
             chk.proof_result(res2, AREA, propfile="RaceFreeProps.v")
-            chk.cov["checker_cmd"] += " (RaceFreeDisjoint.v, RaceFreeValues.v, gen/RaceFreeGen.v, RaceFreeProps.v are compiled by checks/C18.py with coqc -Q . C16, in this order)"
+            chk.cov["checker_cmd"] += " (RaceFreeDisjoint.v, RaceFreeValues.v, RaceFreeAtomic.v, gen/RaceFreeGen.v, RaceFreeProps.v are compiled by checks/C18.py with coqc -Q . C16, in this order)"
     if descs:
         n_meth, n_ok, rand = structural_c18(chk, descs)
         chk.cov["claimed_const_methods"] = n_meth
